@@ -250,3 +250,24 @@ def strategy(tier):
                 "complete_at": complete_at, "max_timesteps": max_ts,
                 "cost": [draw(st.sampled_from([0, 0, 1, 3])) for _ in range(n)] if procs > 1 else []}
     return case()
+
+
+EXHAUSTIVE_DOMAIN = ("all 8 modes x every table of 3 combinations x 2 repetitions with scores from {-1, 0, 1} (quick: 2 combinations "
+                     "plus the 3-combination tables with equal repetitions), serial; ties, zeros and sign changes at every position")
+
+
+def exhaustive(tier):
+    import itertools
+    vals = (-1, 0, 1)
+    base = {"nb": 1, "float": False, "reps": 2, "processes": 1, "plist": False, "a_list": True, "b_list": False,
+            "complete_at": 0, "max_timesteps": None, "cost": []}
+    pairs = list(itertools.product(vals, repeat=2))
+    for mode in range(8):
+        for combo in itertools.product(pairs, repeat=2):
+            yield dict(base, na=2, mode=mode, scores=[list(c) for c in combo])
+        if tier == "quick":
+            for combo in itertools.product(vals, repeat=3):
+                yield dict(base, na=3, mode=mode, scores=[[c, c] for c in combo])
+        else:
+            for combo in itertools.product(pairs, repeat=3):
+                yield dict(base, na=3, mode=mode, scores=[list(c) for c in combo])
